@@ -441,3 +441,23 @@ func storesWhatIsKnownEmpty(cps string, out *keQualifier) bool {
 	}
 	return false
 }
+
+// LINT-LOOPVAR: every name ends up pointing at the profile read last (go 1.20 loop variable).
+type lvProfile struct{ Name string }
+
+func addressOfLoopVariableKept(profiles []lvProfile) map[string]*lvProfile {
+	out := map[string]*lvProfile{}
+	for _, p := range profiles {
+		out[p.Name] = &p
+	}
+	return out
+}
+
+// LINT-MAPORDER: the remaining entries are appended in the order of the map.
+func listBuiltInMapOrder(rest map[int]string) []string {
+	var out []string
+	for _, v := range rest {
+		out = append(out, v)
+	}
+	return out
+}
